@@ -103,17 +103,36 @@ fn apply_model(m: &mut Model, op: &Op) {
     }
 }
 
+// every mutator result is discarded, so the harness still builds if a mutator starts returning a value
 fn apply_real(h: &mut SparseMatrix, op: &Op) {
     match op {
-        Op::Insert(r, c) => h.insert(*r, *c),
-        Op::Remove(r, c) => h.remove(*r, *c),
-        Op::Toggle(r, c) => h.toggle(*r, *c),
-        Op::InsertRow(r, cs) => h.insert_row(*r, cs.iter()),
-        Op::InsertCol(c, rs) => h.insert_col(*c, rs.iter()),
-        Op::ClearRow(r) => h.clear_row(*r),
-        Op::ClearCol(c) => h.clear_col(*c),
-        Op::SetRow(r, cs) => h.set_row(*r, cs.iter()),
-        Op::SetCol(c, rs) => h.set_col(*c, rs.iter()),
+        Op::Insert(r, c) => {
+            let _ = h.insert(*r, *c);
+        }
+        Op::Remove(r, c) => {
+            let _ = h.remove(*r, *c);
+        }
+        Op::Toggle(r, c) => {
+            let _ = h.toggle(*r, *c);
+        }
+        Op::InsertRow(r, cs) => {
+            let _ = h.insert_row(*r, cs.iter());
+        }
+        Op::InsertCol(c, rs) => {
+            let _ = h.insert_col(*c, rs.iter());
+        }
+        Op::ClearRow(r) => {
+            let _ = h.clear_row(*r);
+        }
+        Op::ClearCol(c) => {
+            let _ = h.clear_col(*c);
+        }
+        Op::SetRow(r, cs) => {
+            let _ = h.set_row(*r, cs.iter());
+        }
+        Op::SetCol(c, rs) => {
+            let _ = h.set_col(*c, rs.iter());
+        }
     }
 }
 
